@@ -382,6 +382,10 @@ def argsOk : List Tok → Bool
   | t :: u :: r => tokOk t && sepOk t u && argsOk (u :: r)
 end
 
+/-- the hypotheses on the values handed to `writeDeclaration`: every value is an admissible token (`tokOk`) and
+    none is white space (`parseDeclaration` drops it) -/
+def valsOk (vs : List Tok) : Bool := vs.all fun t => tokOk t && t.tt != .whitespace
+
 mutual
 /-- the token stream a value stands for -/
 def flatTok : Tok → List Token
